@@ -114,11 +114,11 @@ func Guarded(text string, watchdog time.Duration, wantEvents bool) Outcome {
 		select {
 		case <-exitSeen:
 			o.Exited = true
-		case <-time.After(100 * time.Millisecond):
+		case <-time.After(250 * time.Millisecond):
 		}
 	}
 	// goroutines: poll briefly so that a lexer that is just returning is not counted
-	deadline := time.Now().Add(100 * time.Millisecond)
+	deadline := time.Now().Add(250 * time.Millisecond)
 	for {
 		o.Leak = lexerGoroutines() - before
 		if o.Leak <= 0 || time.Now().After(deadline) {
